@@ -13,7 +13,7 @@ CFG = {
     "C06": dict(mode="iso", directed=["minstake_change", "restart_truncated", "checktx_not_delivered", "limiter_block", "vote_window_edges", "forced_unbond", "same_block_withdraw"],
                 quick=dict(n=2, blocks=6, budget=160), thorough=dict(n=24, blocks=10, budget=700, full=True)),
     "C07": dict(mode="restart", directed=["minstake_change", "evm_quiet_blocks", "restart_truncated", "valcount_change", "validator_churn", "vote_window_edges", "price_change", "many_unbonding", "forced_unbond", "twin_jail", "self_below_min", "slash_then_unstake"],
-                quick=dict(n=4, blocks=14, budget=14), thorough=dict(n=40, blocks=24, budget=60, full=True)),
+                quick=dict(n=4, blocks=14, budget=14), thorough=dict(n=24, blocks=24, budget=45, full=True)),
 }
 
 WHAT = {
